@@ -295,7 +295,7 @@ def _(c):
 # ---------------------------------------------------------------------------------------------
 
 OPS = ["sgp4", "sgp4beta", "kepler", "j2", "num_rk4", "cw", "ephem_interp", "frame_itrf", "frame_tod", "tle_write", "sun", "moon", "ccsds_opm",
-       "events", "frame_station", "ccsds_oem", "jpl_mars", "ephem_iter"]
+       "events", "frame_station", "ccsds_oem", "jpl_mars", "ephem_iter", "frame_gcrf_from_itrf"]
 
 
 def _grid_ops(tier, rng):
@@ -308,7 +308,7 @@ def _grid_ops(tier, rng):
                 if tier == "quick" and (la + le) % 3 and la != 3:
                     continue
                 for inst in (0, 1, 2):
-                    if inst == 2 and OPS[op] not in ("frame_itrf", "frame_tod", "kepler"):
+                    if inst == 2 and OPS[op] not in ("frame_itrf", "frame_tod", "kepler", "frame_gcrf_from_itrf"):
                         continue
                     yield {"op": op, "la": la, "le": le, "inst": inst}
 
@@ -364,6 +364,13 @@ def _(c):
         eph2 = Ephem([relabel_orbit(o, le) for o in eph])
         got = pos(eph2.interpolate((target + timedelta(seconds=31)).change_scale(la)))
         c.ensure("interpolation", close(want, got))
+    elif op == "frame_gcrf_from_itrf":
+        # through the IAU-2010 chain (ITRF - TIRF - CIRF - GCRF)
+        sv = StateVector(np.asarray(ref.copy(form="cartesian"), dtype=float), target, "cartesian", "ITRF")
+        want = np.asarray(sv.copy(frame="GCRF"), dtype=float)
+        sv2 = StateVector(np.asarray(ref.copy(form="cartesian"), dtype=float), target.change_scale(la), "cartesian", "ITRF")
+        got = np.asarray(sv2.copy(frame="GCRF"), dtype=float)
+        c.ensure("frame_conversion", close(want, got, v=500.0))
     elif op in ("frame_itrf", "frame_tod"):
         frame = "ITRF" if op == "frame_itrf" else "TOD"
         sv = StateVector(np.asarray(ref.copy(form="cartesian"), dtype=float), target, "cartesian", "EME2000")
